@@ -259,7 +259,7 @@ theorem eval_spec (cfg : Cfg) (d : Date) (t : Time) (hv : ValidCfg cfg) (hs : So
       | none => exact ⟨_, rfl, by simp [Option.orElse]⟩
       | some wk =>
         simp only []
-        have hl := hwk wk hw
+        have hl : wk.length = 7 := by rw [hw] at hwk; exact hwk
         have hne : wk.isEmpty = false := by
           cases wk with
           | nil => simp at hl
